@@ -74,7 +74,7 @@ func main() {
 		if w, err := strconv.Atoi(os.Getenv("VCHECK_WORKERS")); err == nil && w > 0 {
 			workers = w
 		}
-		dl := 150
+		dl := 400
 		if tier == "thorough" {
 			dl = 1200
 		}
